@@ -125,13 +125,6 @@ Qed.
 
 (** ** str.split(sep) undoes sep.join when no field holds the separator *)
 Local Open Scope list_scope.
-Fixpoint join_l (sep : ascii) (fs : list (list ascii)) : list ascii :=
-  match fs with
-  | [] => []
-  | [f] => f
-  | f :: r => f ++ sep :: join_l sep r
-  end.
-Definition join (sep : ascii) (fs : list string) : string := str (join_l sep (map chars fs)).
 
 Definition no_char (c : ascii) (w : list ascii) : Prop := ~ In c w.
 
